@@ -155,7 +155,16 @@ impl Engine for Truth {
             out.label("sink-makes-short-writes");
         }
         let sw_a = SharedWriter::new(sink());
-        let ra = guarded(|| codec::encode_full(sw_a.clone(), &pcm, &o, c.enc.front, &c.enc.chunks, total, &[], 0, false));
+        // the state of the sink when every write call has returned, before the writer is dropped
+        // (dropping a writer finalizes it)
+        let at_mark: std::rc::Rc<std::cell::RefCell<Option<RecWriter>>> = Default::default();
+        let ra = {
+            let (slot, sink) = (at_mark.clone(), sw_a.clone());
+            codec::with_unfinalized_hook(Box::new(move || *slot.borrow_mut() = Some(sink.snapshot())), || {
+                guarded(|| codec::encode_full(sw_a.clone(), &pcm, &o, c.enc.front, &c.enc.chunks, total, &[], 0, false))
+            })
+        };
+        let before = at_mark.borrow_mut().take().unwrap_or_else(|| sw_a.snapshot());
         let sw = SharedWriter::new(sink());
         let r = guarded(|| codec::encode_full(sw.clone(), &pcm, &o, c.enc.front, &c.enc.chunks, total, &[], 0, true));
         let (mark_ops, mark_len) = match (ra, r) {
@@ -172,12 +181,12 @@ impl Engine for Truth {
                 out.fail(format!("encode-error:{}:{}", e.stage(), strip_digits(e.text())), format!("{e:?}"));
                 return out;
             }
-            (Ok(Ok(())), Ok(Ok(()))) => (sw_a.ops_len(), sw_a.0.borrow().data.len()),
+            (Ok(Ok(())), Ok(Ok(()))) => (before.ops.len(), before.data.len()),
         };
         {
-            let a = sw_a.0.borrow();
+            let a = &before;
             let b = sw.0.borrow();
-            if b.ops.len() < mark_ops || a.ops[..] != b.ops[..mark_ops] {
+            if b.ops.len() < mark_ops || a.ops[..mark_ops] != b.ops[..mark_ops] {
                 out.fail("nondeterministic-write-sequence", "two identical encodes issued different operations before finalize");
                 return out;
             }
@@ -219,7 +228,6 @@ impl Engine for Truth {
         // seeks it uses, no write may touch the audio frames that were already out, they must still
         // be where they were, and the output must end where the appended frames end
         let first_frame_abs = (start + d.first_frame) as u64;
-        let before = sw_a.snapshot();
         let end_before = mark_len as u64;
         {
             let a = &before.data;
